@@ -109,6 +109,17 @@ func (in *Interp) sel(v Value, s Sel) Value {
 	}
 	switch a := v.(type) {
 	case Array:
+		if !s.Idx.IsConst() && len(a.Cells) >= 1 && len(a.Cells) <= 64 {
+			// symbolic index: ite-merge the cells when they are mergeable (no fork)
+			acc := a.Cells[len(a.Cells)-1]
+			ok := true
+			for k := len(a.Cells) - 2; k >= 0 && ok; k-- {
+				acc, ok = in.iteValue(in.C.Eq(s.Idx, in.u64(uint64(k))), a.Cells[k], acc)
+			}
+			if ok {
+				return acc
+			}
+		}
 		i := in.concretize(s.Idx, "array index")
 		if i >= uint64(len(a.Cells)) {
 			in.unsupported("internal: array index %d out of %d", i, len(a.Cells))
@@ -329,6 +340,11 @@ func (in *Interp) seqEqual(aA ArrayTerm, aOff, aLen *smt.Term, bA ArrayTerm, bOf
 	if n > maxCells {
 		in.unsupported("sequence comparison of %d elements", n)
 	}
+	if x, ok := in.packCells(aA, aOff, n); ok {
+		if y, ok := in.packCells(bA, bOff, n); ok && x.Sort == y.Sort {
+			return in.C.And(lenEq, in.C.Eq(x, y))
+		}
+	}
 	conj := []*smt.Term{lenEq}
 	for i := uint64(0); i < n; i++ {
 		x := aA.Read(in.C, in.C.BVAdd(aOff, in.u64(i)))
@@ -467,6 +483,17 @@ func (in *Interp) iteValue(c *smt.Term, a, b Value) (Value, bool) {
 			return nil, false
 		}
 		n := int(x.N.Uint64())
+		if px, ok := in.packCells(x.A, in.u64(0), uint64(n)); ok {
+			if py, ok := in.packCells(y.A, in.u64(0), uint64(n)); ok && px.Sort == py.Sort {
+				w := in.C.Ite(c, px, py)
+				cells := make([]*smt.Term, n)
+				tw := px.Sort.W
+				for i := 0; i < n; i++ {
+					cells[i] = in.C.Extract(w, tw-1-i*x.W, tw-(i+1)*x.W)
+				}
+				return SArray{A: &cellsArr{cells: cells, w: x.W}, W: x.W, N: x.N}, true
+			}
+		}
 		cells := make([]*smt.Term, n)
 		for i := 0; i < n; i++ {
 			idx := in.u64(uint64(i))
@@ -633,3 +660,31 @@ func (in *Interp) mapLive(m MapV) ([]Value, []Value) {
 }
 
 func (in *Interp) fmtVal(v Value) string { return fmt.Sprint(describe(v)) }
+
+// packCells returns the wide term whose consecutive byte extracts are exactly the given cells
+// (big-endian order), if there is one. Used to keep 256-bit values (hashes) as single terms.
+func (in *Interp) packCells(A ArrayTerm, off *smt.Term, n uint64) (*smt.Term, bool) {
+	ca, ok := A.(*cellsArr)
+	if !ok || !off.IsConst() || n < 2 {
+		return nil, false
+	}
+	o := off.Uint64()
+	if o+n > uint64(len(ca.cells)) {
+		return nil, false
+	}
+	first := ca.cells[o]
+	if first.Op != smt.OExtract || first.Sort.W != ca.w {
+		return nil, false
+	}
+	x := first.Args[0]
+	hi := first.P1
+	lo := first.P2
+	for i := uint64(1); i < n; i++ {
+		c := ca.cells[o+i]
+		if c.Op != smt.OExtract || c.Args[0] != x || c.P1 != lo-1 || c.P1-c.P2+1 != ca.w {
+			return nil, false
+		}
+		lo = c.P2
+	}
+	return in.C.Extract(x, hi, lo), true
+}
